@@ -27,7 +27,7 @@ RULE = ('seeded random 3-axis signals: linear (a + b t, d + e t with non-paralle
         ' Round 5: Imu frames of mixed dtypes (whole-number gyro rates stored as int64 next to float accelerometers).')
 ASSUMPTIONS = ['reference integrals by DOP853 at rtol 1e-13; rungs used for the order fit (>= 3 consecutive) satisfy max(|w|, signal frequency) * 1.5 h <= 0.3 (linear) / 0.12 (sinusoid) '
                'and error >= 100x the oracle floor (4 eps of the increment)', 'orders required: 3.5 (linear signals, from the statement: exact through the cubic term); 2.0 for sinusoids (the docstring names no order; with jittered stamps the max-over-intervals error of a rate sensor fell as h^2.49 in a thorough run, observed range 2.5..3.0; every coefficient / sign slip is decided by the linear clause, the sinusoid clause only guards against a drop to first order)']
-REQUIRED_OBS = ['mixed_dtype_frames', 'excerpt_rows_compared', 'structure_checked', 'order_fits', 'rungs_evaluated', 'imu_columns_permuted', 'pattern_one_late', 'pattern_two_rate', 'pattern_alternating',
+REQUIRED_OBS = ['rate_reversal_mid_interval', 'mixed_dtype_frames', 'excerpt_rows_compared', 'structure_checked', 'order_fits', 'rungs_evaluated', 'imu_columns_permuted', 'pattern_one_late', 'pattern_two_rate', 'pattern_alternating',
                 'pattern_ramp', 'pattern_gap', 'pattern_late_first', 'pattern_jitter']
 REQUIRED_CLASSES = {'all': ['long-excerpt', 'linear-rate-uniform', 'linear-rate-irregular', 'linear-increment-uniform', 'linear-increment-irregular',
                             'sine-rate-uniform', 'sine-rate-irregular', 'sine-increment-uniform', 'sine-increment-irregular']}
@@ -189,9 +189,17 @@ def run_case(case):
             d[k + 1] -= e
             base = np.r_[0, np.cumsum(d)]
     bump('pattern_' + pattern)
+    reversal = kind == 'linear' and stamps == 'uniform' and not mixed and case['seed'] % 3 == 1
+    if reversal:
+        # Round 6: the angular rate reverses exactly in the middle of a sampling interval on EVERY rung (w(t) = b t on cell-centred stamps
+        # +-h/2, +-3h/2, ...): the two gyro samples of that interval are exact negatives, the net rotation over it is exactly zero, while
+        # the sculling term is not
+        sig = bodyint.LinearSignal(np.zeros(3), sig.b if hasattr(sig, 'b') else rng.uniform(-1, 1, 3), rng.uniform(-1, 1, 3) * 15, rng.uniform(-1, 1, 3) * 10)
+        base = np.arange(nint) - (nint - 1) / 2.0
+        bump('rate_reversal_mid_interval')
     shuf = np.random.Generator(np.random.PCG64(case['seed'] + 5)) if case.get('shuffled') else None
     bump('imu_columns_permuted', int(shuf is not None))
-    t_off = rng.uniform(0, 0.5)
+    t_off = 0.0 if reversal else rng.uniform(0, 0.5)
     eth, edv, edv2, fl_th, fl_dv, adm = [], [], [], [], [], []
     for h in HS:
         tt = t_off + base * h
